@@ -346,6 +346,10 @@ def run(chk, facts, tier):
     # pre-parse cache; its ownership / replace-on-register discipline is shared with C19
     from rules import C19 as c19
     c19.cache_ownership(chk, facts)
+    # the bucket partition is also what a partial response re-authorises from (partial_response.rs is one of C01's anchors): every
+    # bucket of both effects is fed back, the satisfied ones as `true` - a satisfied forbid left out turns Deny into Allow (C13.REAUTH, shared)
+    from rules import C13 as c13
+    c13.reauthorize(chk, facts)
     from rules import shared_getters
     shared_getters.check(chk, facts, "C01.GETTER", ["cedar_policy_core::authorizer::", "cedar_policy::api::"], 20)
     # every policy of the set is considered: the authorizer's loop runs over policies() itself, nothing is filtered out
